@@ -162,6 +162,15 @@ def gen_literal(rng, tier, ctx):
     for c in INTERESTING:
         cases.append([c])
         cases.append([92, c, 92])
+    # every ASCII character (and the other interesting ones) directly before and after each character that could
+    # continue an escape sequence: octal digits, 8, u, backslash, quotes, letters of the short escapes
+    followers = [48, 49, 51, 52, 55, 56, 57, 117, 92, 34, 39, 110, 116, 98, 102, 114, 115, 120, 85, 10, 13]
+    for c in list(range(128)) + [x for x in INTERESTING if x >= 128] + [0x10000, 0x10001, 0xFFFF, 0x10FFFF]:
+        st = []
+        for d in followers:
+            st += [c, d]
+        cases.append(st)
+        cases.append([c, c, 48, c, c, 117, 48, 48, 52, 49])
     n_supp = 4000 if tier == "thorough" else 400
     for _ in range(n_supp // 8):
         cases.append([rng.randrange(0x10000, 0x110000) for _ in range(8)])
